@@ -89,6 +89,7 @@ struct sent {
 	int has_value; int value_int;                                 /* event or routed value / result payload */
 	int is_error; int err_code; int has_result;
 	int result_items;                                             /* number of members when the result is an array (get) */
+	int payload_type;                                             /* JSON type of the result / error member of a response */
 };
 static struct sent LOG[MAXLOG]; static int nlog;
 static int sends;                 /* number of send attempts */
@@ -146,6 +147,8 @@ static int scn_send(const struct peer *p, char *rendered, size_t len)
 		s->kind = K_RESPONSE; record_id(s, id);
 		const cJSON *err = cJSON_GetObjectItem(m, "error");
 		const cJSON *res = cJSON_GetObjectItem(m, "result");
+		if (err) s->payload_type = err->type;
+		if (res) s->payload_type = res->type;
 		if (err) { s->is_error = 1; const cJSON *code = cJSON_GetObjectItem(err, "code"); s->err_code = code ? code->valueint : 0; if (!code) { s->has_value = 1; s->value_int = err->valueint; } }
 		if (res) { s->has_result = 1; s->has_value = 1; s->value_int = res->valueint; s->result_items = cJSON_GetArraySize(res); }
 	}
